@@ -176,7 +176,7 @@ def histories(tier):
 class C08(Check):
     id = "C08"
     level = "model_checking"
-    explanation = ("Bounded histories [evaluate]* . mutate . [evaluate]* . [mutate] . evaluate over all 11 evaluators and 9 mutators (legacy "
+    explanation = ("Bounded histories [evaluate]* . mutate . [evaluate]* . [mutate] . evaluate over all 11 evaluators and 11 mutators (two of which declare a parameter / derived parameter WITHOUT changing the right-hand side; legacy "
                    "transition, Event, single-Transition event, birth, death, explicit ODE, new parameter + event, derived parameter + event, "
                    "new parameter values) on a real model, each evaluator observed after the last step in both recompilation orders (evaluator "
                    "first / ode first) and in both observation orders (modified model first / reference model first -- two models alive in one "
